@@ -1,4 +1,5 @@
 """C04 - Confidence is exactly the configured score of what is reported."""
+from vf import core
 from vf import e2e, gen, hooks, oracles, pipeline
 from vf.core import Shard, rng_for
 
@@ -98,7 +99,7 @@ def run_shard(spec):
         case = make_case(rng)
         case['kind'] = 'e2e'
         case['gen'] = [spec['seed'], spec['shard'], i]
-        judge(case, spec['workdir'], sh)
+        core.isolated(judge, sh, case, spec['workdir'])
     if hooks.MONITOR_ERRORS:
         sh.inconclusive.append('monitor errors: %s' % hooks.MONITOR_ERRORS[:3])
     return sh
